@@ -1236,6 +1236,18 @@ def _id_bumpers(core):
             s_ = ps[0].stores()[0]
             v = s_[2]
             okk = v[0] == "bin" and v[1] == "Add" and norm(v[2]) == norm(s_[1]) and guards.rng(v[3]) == (1, 1)
+            if okk:
+                # if it hands an id back it must be the *stepped* id (pre-increment semantics: ids start at 1); returning
+                # the value from before the step makes the first id 0, which is the `new object` / length-0 marker
+                ret = strip_refs(ps[0].outcome[1])
+                unit = (ret[0] == "agg" and ret[1] == "tuple" and not ret[4]) or (ret[0] == "const" and ret[1] == "()")
+                if not unit:
+                    inner = ret
+                    while isinstance(inner, tuple) and inner[0] == "agg" and inner[1] == "adt" and inner[4] and len(inner[4]) == 1:
+                        inner = strip_refs(inner[4][0])          # StringId(x) / RefId(x)
+                    same = norm(ret) == norm(v) or norm(inner) == norm(v) or \
+                        any(norm(x) == norm(v) for x in mir.walk_expr(ret) if isinstance(x, tuple) and x[0] == "bin")
+                    okk = same
         out[b.defn] = (bool(okk), b.key)
     return out
 
@@ -1252,7 +1264,7 @@ def state_tables(an, rep):
     core = an.core()
     bumpers = _id_bumpers(core)
     for d, (okk, key) in sorted(bumpers.items()):
-        R.check(okk, key, "increment", "a function that steps a StringId / RefId must add exactly 1", None, sample={key: "+1"})
+        R.check(okk, key, "increment", "a function that steps a StringId / RefId must add exactly 1 and, if it hands an id back, hand back the stepped one", None, sample={key: "+1"})
     R.floor("id stepping functions", len(bumpers), 2)
     for fn, variants in (("State::store_string", ("StringAlreadyStored", "StringIsNew")),
                          ("State::store_ref", ("RefAlreadyStored", "RefIsNew"))):
@@ -1322,6 +1334,31 @@ def state_tables(an, rep):
             R.check(okk, b.key, "vacant", "a new key must step the id exactly once, be filed under the new id, file the new id "
                     "under that very key, and return the new id", None, sample={fn: "vacant -> step id; both tables; new id"})
         R.check(seen == {"Occupied", "Vacant"}, b.key, "rows", "rows: %s" % sorted(seen))
+    # who may touch the tables: the string table belongs to the DeduplicatedString codec (and to the evolution header, whose
+    # field names are deduplicated strings by format), the object table to store_ref_or_object / try_read_ref.  Any other
+    # codec that registers or resolves entries numbers things on one side of the wire only.
+    from .. import callgraph as _cg
+    from ..rules.n_totality import _owner_fn
+    owner, users = _owner_fn(core, _cg.CallGraph(core))
+    MAY_CALL = {
+        "State::store_string": {"<DeduplicatedString as BinarySerializer>::serialize", "<DeduplicatedString as BinaryDeserializer>::deserialize",
+                                "<SerializedEvolutionStep as BinarySerializer>::serialize"},
+        "State::get_string_by_id": {"<DeduplicatedString as BinaryDeserializer>::deserialize"},
+        "State::store_ref": {"SerializationContext<Output>::store_ref_or_object"},
+        "State::get_ref_by_id": {"DeserializationContext::try_read_ref"},
+    }
+    found = {k: set() for k in MAY_CALL}
+    for b2 in core.bodies.values():
+        if b2.test:
+            continue
+        for bb, t_, info in mir.calls(b2):
+            if info["key"] in MAY_CALL:
+                root = core.bodies.get(b2.raw.get("root")) if b2.kind == "Closure" else b2
+                root = root or b2
+                found[info["key"]] |= (users(root) or {owner(root)})
+    for k, cs in sorted(found.items()):
+        R.check(cs <= MAY_CALL[k], k, "callers", "%s is used by %s; only %s may" % (k, sorted(cs - MAY_CALL[k]), sorted(MAY_CALL[k])),
+                None, sample={"table function": k, "used by": sorted(cs)})
     # Default derives: ids start at 0 -> first id is 1
     for adt in core.items["adts"]:
         if adt["path"] in ID_TYPES:
@@ -1529,6 +1566,25 @@ def record_writer(an, rep):
             if fn.endswith("new_v0"):
                 bufs = [f for n, f in zip(range(99), ret[4])] if ret[0] == "agg" else []
                 R.check(_has_empty_vec(ret) and not _has_filled_vec(ret), fn, "no buffers", "new_v0 must start with no chunk buffers")
+    # the evolution header is written by finish() (through write_evolution_header) and read by AdtDeserializer::new, nowhere
+    # else: a step serialized at another moment registers its names in the string table at another position of the stream
+    from .. import callgraph as _cg
+    from ..rules.n_totality import _owner_fn
+    _owner, _users = _owner_fn(core, _cg.CallGraph(core))
+    HDR = {"<SerializedEvolutionStep as BinarySerializer>::serialize": {"AdtSerializer<Output>::write_evolution_header"},
+           "<SerializedEvolutionStep as BinaryDeserializer>::deserialize": {"AdtDeserializer::new"}}
+    used = {k: set() for k in HDR}
+    for b2 in core.bodies.values():
+        if b2.test:
+            continue
+        for bb, t_, info in mir.calls(b2):
+            if info["key"] in HDR:
+                root = core.bodies.get(b2.raw.get("root")) if b2.kind == "Closure" else b2
+                root = root or b2
+                used[info["key"]] |= (_users(root) or {_owner(root)})
+    for k, cs in sorted(used.items()):
+        R.check(bool(cs) and cs <= HDR[k], k, "callers", "%s is called from %s; the header is written only by %s" %
+                (k, sorted(cs), sorted(HDR[k])), None, sample={"header codec": k, "called from": sorted(cs)})
     b = core.find("AdtSerializer<Output>::write_field")
     if b:
         rows = set()
